@@ -2,6 +2,7 @@
    the reader's coordinate-variable search, injectivity of flattened names in every regime
    (hash = Section variable), and the meaning theorem (what the writer emits as a reference is
    resolved, renamed and un-flattened to the element the writer meant). *)
+From Coq Require Import DecimalString DecimalNat DecimalFacts FinFun.
 From CfdmV Require Import Common.Base Tables.FlattenRules C11.Model C11.Lemmas.
 Open Scope nat_scope.
 
@@ -476,15 +477,25 @@ Proof.
   rewrite FL in I. contradiction.
 Qed.
 
-(* below the hashing limit and for slash-free names the basename test is a test of names *)
+(* for slash-free names the basename test is a test of names (in every regime of the flattened
+   names: the repaired reader takes the basename from the absolute path) *)
+Lemma basename_of_name : forall hash p n, free slash (p ++ [n]) -> basename_of hash p n = n.
+Proof.
+  intros hash p n F. unfold basename_of. rewrite (unflatten_var_spec _ p n F). destruct p; reflexivity.
+Qed.
+
+Lemma dim_basename_name : forall hash p n, free slash (p ++ [n]) -> dim_basename_gen true hash p n = n.
+Proof.
+  intros hash p n F. unfold dim_basename_gen. rewrite (unflatten_dim_spec _ p n F). destruct p; reflexivity.
+Qed.
+
 Lemma candidate_names : forall hash vars field dim v,
-  free slash (v_groups v ++ [v_name v]) -> short (v_groups v) (v_name v) ->
-  free slash (fst dim ++ [snd dim]) -> short (fst dim) (snd dim) ->
+  free slash (v_groups v ++ [v_name v]) -> free slash (fst dim ++ [snd dim]) ->
   (candidate hash vars field dim v <->
    In v vars /\ vid v <> field /\ v_dims v = [dim] /\ v_name v = snd dim /\ is_prefix (fst dim) (v_groups v)).
 Proof.
-  intros hash vars field dim v Fv Sv Fd Sd. unfold candidate, basename_of, dim_basename_gen.
-  rewrite (unflatten_var_spec hash _ _ Fv Sv), (unflatten_dim_spec hash _ _ Fd Sd). reflexivity.
+  intros hash vars field dim v Fv Fd. unfold candidate.
+  rewrite (basename_of_name hash _ _ Fv), (dim_basename_name hash _ _ Fd). reflexivity.
 Qed.
 
 (* a file as cfdm's writer makes it: the coordinate variable sits beside its dimension and is
@@ -839,50 +850,96 @@ Proof.
     apply resolve_absolute.
 Qed.
 
-Lemma adapt_writer_ref : forall hash root rl strict p n g,
-  var_rule rl -> tree_okb root = true -> find_group root p = Some g ->
-  mem_str n (map fst (gvars g)) = true -> free slash (p ++ [n]) ->
-  substrb not_found (pathname p n) = false ->
-  adapt hash root rl strict (pathname p n) = RStr (flat_name hash p n).
+(* ---- the names actually used: clashing names get a counter, the keys are untouched ---- *)
+Lemma dedup_from_keys : forall l used, map fst (dedup_from used l) = map fst l.
+Proof. induction l as [|[k f] r IH]; intros used; simpl; [reflexivity|rewrite IH; reflexivity]. Qed.
+
+Lemma assoc_str_in_keys : forall k l, In k (map fst l) -> exists f, assoc_str k l = Some f /\ In (k, f) l.
 Proof.
-  intros hash root rl strict p n g [Rd [Rv Rs]] OK F M Fr NF. unfold adapt. rewrite NF, Rd.
+  induction l as [|[a b] l IH]; intros I; [contradiction|]. simpl.
+  destruct (str_eqb a k) eqn:E.
+  - apply str_eqb_eq in E. subst a. exists b. split; [reflexivity|left; reflexivity].
+  - destruct I as [I|I]; [simpl in I; subst a; rewrite str_eqb_refl in E; discriminate|].
+    destruct (IH I) as [f [A B]]. exists f. split; [assumption|right; assumption].
+Qed.
+
+Lemma uniq_unused : forall used name, mem_str name used = false -> uniq used name = name.
+Proof. intros used name H. unfold uniq. rewrite H. reflexivity. Qed.
+
+(* when no two elements are given the same name, nothing is renamed *)
+Lemma dedup_from_id : forall l used, NoDup (map snd l ++ used) -> dedup_from used l = l.
+Proof.
+  induction l as [|[k f] r IH]; intros used ND; [reflexivity|]. simpl in *.
+  inversion ND as [|? ? NI ND']; subst.
+  assert (M : mem_str f used = false).
+  { destruct (mem_str f used) eqn:E; [|reflexivity]. apply mem_str_in in E. exfalso. apply NI.
+    apply in_or_app. right. assumption. }
+  rewrite (uniq_unused _ _ M). f_equal. apply IH.
+  apply (NoDup_Add (Add_app f (map snd r) used)). split; assumption.
+Qed.
+
+Lemma dedup_id : forall l, NoDup (map snd l) -> dedup l = l.
+Proof. intros l ND. apply dedup_from_id. rewrite app_nil_r. assumption. Qed.
+
+Lemma adapt_writer_ref : forall hash root rl strict p n g,
+  var_rule rl -> find_group root p = Some g ->
+  mem_str n (map fst (gvars g)) = true ->
+  substrb not_found (pathname p n) = false ->
+  exists f, adapt hash root rl strict (pathname p n) = RStr f /\ In (pathname p n, f) (var_map_u hash root).
+Proof.
+  intros hash root rl strict p n g [Rd [Rv Rs]] F M NF. unfold adapt. rewrite NF, Rd.
   assert (L1 : r_var rl <? 0 = false) by (apply Nat.ltb_ge; lia).
   assert (L2 : 0 <? r_var rl = true) by (apply Nat.ltb_lt; lia).
-  rewrite L1, L2. rewrite (assoc_var_map hash root p n g OK F M Fr). reflexivity.
+  rewrite L1, L2. apply mem_str_in in M.
+  assert (K : In (pathname p n) (map fst (var_map_u hash root))).
+  { unfold var_map_u, dedup. rewrite dedup_from_keys.
+    apply in_map_iff. exists (pathname p n, flat_name hash p n). split; [reflexivity|].
+    apply (var_map_has hash p root [] g n F M). }
+  destruct (assoc_str_in_keys _ _ K) as [f [A I]]. exists f. rewrite A. split; [reflexivity|assumption].
 Qed.
 
 (* MEANING.  Let (p, n) be a variable of a grouped dataset and [name_of p n] the name cfdm
    records for it and the writer emits as a reference to it ("/g1/../gk/n", or the bare "n" in
    the root group).  From any referring group, under any variable-reference rule:
-   - grouped file: the flattener resolves and renames that reference to the flattened name of
-     exactly (p, n) (strict or not, never an exception) ...
-   - ... from whose entry in the mapping attribute the reader recovers the group path, the
-     basename and, as the recorded name, the very name the writer was given;
+   - grouped file: the flattener resolves and renames that reference (strict or not, never an
+     exception) to the name [f] under which the mapping attribute records exactly "/p/n" -
+     the proposed flattened name of (p, n) itself when no two elements clash ...
+   - ... from which entry the reader recovers the group path, the basename and, as the
+     recorded name, the very name the writer was given (whatever [f] is);
    - flat file: with group=False the same recorded name is reduced to the basename and placed
      in the root group, where the reference is the name itself;
    - and the recorded name written again with group=True goes back into group p.
    Exact guard, for a root-group target only: [unshadowed] (see the refuted statement). *)
 Lemma meaning : forall hash root rl strict rp coords p n g,
-  var_rule rl -> tree_okb root = true ->
+  var_rule rl ->
   find_group root p = Some g -> mem_str n (map fst (gvars g)) = true ->
   free slash (p ++ [n]) -> n <> [] ->
   substrb not_found (pathname p n) = false ->
   (p = [] -> unshadowed root (r_apex rl) rp n) ->
-  flatten_ref hash root rl strict rp coords (name_of p n) = RStr (flat_name hash p n) /\
-  (short p n -> unflatten_var (flat_name hash p n) (pathname p n) = (p, name_of p n, n)) /\
+  (exists f,
+     flatten_ref hash root rl strict rp coords (name_of p n) = RStr f /\
+     In (pathname p n, f) (var_map_u hash root) /\
+     (tree_okb root = true -> NoDup (map snd (var_map hash [] root)) -> f = flat_name hash p n) /\
+     forall x, p <> [] \/ x = n -> unflatten_var x (pathname p n) = (p, name_of p n, n)) /\
   remove_group_structure (name_of p n) = n /\
   parent_group_path false (name_of p n) = Some [] /\
   parent_group_path true (name_of p n) = Some p.
 Proof.
-  intros hash root rl strict rp coords p n g VR OK F M Fr NE NF U.
+  intros hash root rl strict rp coords p n g VR F M Fr NE NF U.
   assert (Fp : free slash p /\ mem_chr slash n = false).
   { unfold free in *. apply Forall_app in Fr as [F1 F2]. inversion F2; subst. split; assumption. }
   destruct Fp as [Fp Fn]. splits.
-  - unfold flatten_ref, flatten_ref_gen.
-    rewrite (resolve_writer_ref root rl strict rp coords p n g VR F M Fn U).
-    apply (adapt_writer_ref hash root rl strict p n g VR OK F M Fr NF).
-  - intros S. rewrite (unflatten_var_spec hash p n Fr S). unfold name_of.
-    destruct p; [reflexivity|]. rewrite pathname_is_abs. reflexivity.
+  - destruct (adapt_writer_ref hash root rl strict p n g VR F M NF) as [f [A I]].
+    exists f. splits.
+    + unfold flatten_ref, flatten_ref_gen.
+      rewrite (resolve_writer_ref root rl strict rp coords p n g VR F M Fn U). exact A.
+    + exact I.
+    + intros OK ND. unfold var_map_u in I. rewrite (dedup_id _ ND) in I.
+      destruct (var_map_entries hash root [] OK ltac:(constructor) _ _ I) as [q [m [Fq [E ->]]]].
+      apply pathname_inj in E as [-> ->]; [reflexivity|assumption|assumption].
+    + intros x Hx. rewrite (unflatten_var_spec x p n Fr). unfold name_of.
+      destruct p as [|a p]; [|rewrite pathname_is_abs; reflexivity].
+      destruct Hx as [Hx|Hx]; [contradiction|subst; reflexivity].
   - destruct (groups_roundtrip p [] n Fp ltac:(constructor) Fn NE) as [name' [_ [_ [R [_ E]]]]].
     unfold name_of. rewrite <- E. exact R.
   - reflexivity.
@@ -962,3 +1019,127 @@ Proof.
         -- intros j Lj. destruct j as [|j]; [assumption|]. apply Hh. lia.
         -- intros j Lj. destruct j as [|j]; [assumption|]. apply Ha. lia.
 Qed.
+
+(* ------------------------------------------------------------------ the writer refuses hidden dimensions *)
+(* The repaired check is exact: walking up from the variable's group (at gd ++ rev rr) to the
+   dimension's group gd it finds no dimension of that name if and only if netCDF binds the
+   basename to the dimension of gd. *)
+Lemma no_hiding_exact : forall root gd n g0 rr,
+  find_group root gd = Some g0 -> mem_str n (gdims g0) = true ->
+  find_group root (rev (rr ++ rev gd)) <> None ->
+  (no_hiding root (rr ++ rev gd) (length rr) n = true <-> nc_lookup_dim root (rr ++ rev gd) n = Some gd).
+Proof.
+  induction rr as [|x rr IH]; intros F M EX.
+  - simpl app. simpl length. cbn [no_hiding]. split; [intros _|reflexivity].
+    rewrite <- (rev_involutive gd) at 2. apply nc_lookup_here with g0; [|assumption].
+    rewrite rev_involutive. assumption.
+  - change ((x :: rr) ++ rev gd) with (x :: (rr ++ rev gd)) in *.
+    destruct (find_group root (rev (x :: rr ++ rev gd))) as [g|] eqn:Fg; [|contradiction].
+    assert (EX' : find_group root (rev (rr ++ rev gd)) <> None).
+    { apply (ancestors_exist root (x :: rr ++ rev gd) 1). rewrite Fg. discriminate. }
+    simpl length. cbn [no_hiding]. rewrite Fg. simpl tl.
+    destruct (mem_str n (gdims g)) eqn:Mg.
+    + cbn [negb andb]. split; [discriminate|]. intros H.
+      rewrite (nc_lookup_here root (x :: rr ++ rev gd) n g Fg Mg) in H. inversion H as [E].
+      apply (f_equal (@length str)) in E. simpl in E.
+      rewrite !app_length, !rev_length, app_length, rev_length in E. simpl in E. lia.
+    + cbn [negb andb]. rewrite (nc_lookup_step root x (rr ++ rev gd) n g Fg Mg). apply IH; assumption.
+Qed.
+
+(* the witness of F11f is now refused *)
+Example hidden_dimension_refused :
+  let root := G [] [s "x"] [] [G (s "a") [s "x"] [] []] in
+  dims_visible true (s "/a/b/ta") [s "x"; s "/a/x"] = true /\
+  writer_accepts root true (s "/a/b/ta") [s "x"; s "/a/x"] = false /\
+  writer_accepts root true (s "/a/ta") [s "/a/x"] = true /\
+  writer_accepts (G [] [s "x"; s "y"] [] [G (s "a") [s "x"] [] []]) true (s "/a/b/ta") [s "y"; s "/a/x"] = true.
+Proof. intros root. splits; reflexivity. Qed.
+
+(* ------------------------------------------------------------------ the names in the flattened file are distinct *)
+Lemma to_uint_nonnil : forall n, Nat.to_uint n <> Decimal.Nil.
+Proof.
+  intros n H. pose proof (Unsigned.to_of (Nat.to_uint n)) as T. rewrite Unsigned.of_to in T.
+  rewrite T in H. apply (unorm_nonnil _ H).
+Qed.
+
+Lemma dec_inj : forall a b, dec a = dec b -> a = b.
+Proof.
+  intros a b E. unfold dec in E. apply (f_equal string_of_list_ascii) in E.
+  rewrite !string_of_list_ascii_of_string in E. apply (f_equal NilZero.uint_of_string) in E.
+  rewrite !NilZero.usu in E by apply to_uint_nonnil. inversion E as [E'].
+  apply Unsigned.to_uint_inj. exact E'.
+Qed.
+
+Definition cand (name : str) (m : nat) : str := name ++ [("_")%char] ++ dec m.
+
+Lemma cand_inj : forall name, Injective (cand name).
+Proof. intros name a b E. unfold cand in E. apply app_inv_head in E. apply app_inv_head in E. apply dec_inj. exact E. Qed.
+
+Lemma uniq_from_spec : forall used name fuel n,
+  exists m, uniq_from fuel n used name = cand name m /\ n <= m <= n + fuel /\
+    (forall j, n <= j < m -> In (cand name j) used) /\
+    (m < n + fuel -> ~ In (cand name m) used).
+Proof.
+  intros used name. induction fuel as [|f IH]; intros n.
+  - exists n. simpl. splits; [reflexivity|lia|lia|intros; lia|intros; lia].
+  - cbn [uniq_from]. fold (cand name n). destruct (mem_str (cand name n) used) eqn:M.
+    + destruct (IH (S n)) as [m [E [R [A B]]]]. exists m. splits; [assumption|lia|lia| |intros; apply B; lia].
+      intros j Hj. destruct (Nat.eq_dec j n) as [->|Nj]; [apply mem_str_in; assumption|apply A; lia].
+    + exists n. splits; [reflexivity|lia|lia|intros; lia|].
+      intros _ I. apply mem_str_in in I. congruence.
+Qed.
+
+(* pigeonhole: k different candidates can not all be among fewer than k names *)
+Lemma cands_bounded : forall used name n k,
+  (forall j, n <= j < n + k -> In (cand name j) used) -> k <= length used.
+Proof.
+  intros used name n k H.
+  assert (ND : NoDup (map (cand name) (seq n k))).
+  { apply Injective_map_NoDup; [apply cand_inj|apply seq_NoDup]. }
+  assert (IN : incl (map (cand name) (seq n k)) used).
+  { intros x I. apply in_map_iff in I as [j [<- Ij]]. apply in_seq in Ij. apply H. lia. }
+  pose proof (NoDup_incl_length ND IN) as L. rewrite map_length, seq_length in L. exact L.
+Qed.
+
+(* unique_flattened_name always returns a name that is not in use: the search for a free
+   counter cannot run out (the out-of-fuel value of the model is itself a free name) *)
+Lemma uniq_fresh : forall used name, ~ In (uniq used name) used.
+Proof.
+  intros used name. unfold uniq. destruct (mem_str name used) eqn:M.
+  - destruct (uniq_from_spec used name (length used) 1) as [m [E [R [A B]]]]. rewrite E.
+    destruct (Nat.lt_ge_cases m (1 + length used)) as [L|L]; [apply B; assumption|].
+    intros I. assert (m = 1 + length used) by lia. subst m.
+    assert (K : S (length used) <= length used).
+    { apply (cands_bounded used name 1 (S (length used))). intros j Hj.
+      destruct (Nat.eq_dec j (1 + length used)) as [->|Nj]; [assumption|apply A; lia]. }
+    lia.
+  - intros I. apply mem_str_in in I. congruence.
+Qed.
+
+Lemma dedup_from_distinct : forall l used,
+  NoDup (map snd (dedup_from used l)) /\
+  forall x, In x (map snd (dedup_from used l)) -> ~ In x used.
+Proof.
+  induction l as [|[k f] r IH]; intros used; [split; [constructor|intros x []]|].
+  cbn [dedup_from map snd]. destruct (IH (uniq used f :: used)) as [ND DJ]. split.
+  - constructor; [|assumption]. intros I. apply (DJ _ I). left. reflexivity.
+  - intros x [<-|I]; [apply uniq_fresh|]. intros Iu. apply (DJ _ I). right. assumption.
+Qed.
+
+(* FLATTENED NAMES ARE DISTINCT, whatever the names in the grouped dataset: every variable
+   (dimension) of the flattened dataset has a name of its own, the mapping attribute has one
+   entry per element, and so it can be inverted *)
+Lemma flat_names_distinct : forall hash root,
+  NoDup (map snd (var_map_u hash root)) /\ NoDup (map snd (dim_map_u hash root)) /\
+  map fst (var_map_u hash root) = map fst (var_map hash [] root) /\
+  map fst (dim_map_u hash root) = map fst (dim_map hash [] root).
+Proof.
+  intros. unfold var_map_u, dim_map_u, dedup. splits;
+    try apply (proj1 (dedup_from_distinct _ [])); apply dedup_from_keys.
+Qed.
+
+(* the collision of F11b is resolved by a counter *)
+Example flat_names_distinct_witness :
+  var_map_u (fun x => x) (G [] [s "x"] [(s "a__b", 1)] [G (s "a") [] [(s "b", 1)] []]) =
+    [(s "/a__b", s "a__b"); (s "/a/b", s "a__b_1")].
+Proof. vm_compute. reflexivity. Qed.
